@@ -10,16 +10,18 @@ item list.
 Two readings of "session" appear:
 
 * `trace`  — events with the boundaries the CODE uses (a view ends at a connect that is not a resumption
-  and at every `disconnected` signal seen while `streamManagementState()` is `NoStreamManagement`);
+  and at the `disconnected` signal that ends an established session while `streamManagementState()` is
+  `NoStreamManagement`; a `disconnected` outside a session — a reconnect attempt that died — ends nothing);
 * `traceS` — events with the boundaries the PROPERTY uses (a view ends only where a session that is not
   a resumption begins).
 
-The code-level statements hold for all histories.  The session-level statement is FALSE for the code as it
-is (`C12_defect_*`): a reconnect attempt that dies after the stream restart resets the SM flags, the
-`disconnected` it causes wipes the cache, and the resumption that follows continues with an empty roster
-(re-requested) and an empty presence table (never re-sent by the server on a resumed stream).
-`session_view_exact_partial` proves the session-level statement for every history in which no such
-`disconnected` happened since the session began.
+The code-level statements hold for all histories.  The session-level statement (`session_view_exact`) holds
+at every moment a session is established, for every history satisfying the one environment assumption
+`resumesContinueSmSession` (a resumption continues the latest session, and that session had stream
+management); `session_view_needs_assumption` shows the assumption cannot be dropped.  Before repo commit
+fd7e86c the statement was false even under the assumption (a reconnect attempt that died after the stream
+restart made `_q_disconnected` wipe the cache although the session was resumed afterwards; the witness
+history is kept as `resumeWitness` and in the harness corpus).
 -/
 namespace Qx.C12
 
@@ -158,59 +160,52 @@ theorem kept_across_resumption (own : String) (s : St) (ops : List Op)
     have hop : (step own s op).1.entries = s.entries ∧ (step own s op).1.presences = s.presences
         ∧ (step own s op).1.received = s.received := by
       rcases h op (by simp) with ⟨c, hc⟩ | ⟨a, ha⟩
-      · subst hc; cases c <;> simp [step]
+      · subst hc; cases hin : s.inSession <;> cases c <;> simp [step, hin]
       · subst ha
         simp only [step, if_true]
         split <;> exact ⟨rfl, rfl, rfl⟩
     exact ⟨hrest.1.trans hop.1, hrest.2.1.trans hop.2.1, hrest.2.2.trans hop.2.2⟩
 
-/-! ### the session-level reading
+/-- **A `disconnected` that does not end an established session changes nothing** (whatever the SM flags
+say at that moment): a reconnect attempt that dies after the stream restart leaves contact list, presence
+table and received flag alone, so the session can still be resumed with its view intact. -/
+theorem disconnected_outside_session_keeps_view (own : String) (s : St) (en cr : Bool)
+    (h : s.inSession = false) :
+    (step own s (.disconnected en cr)).1.entries = s.entries
+    ∧ (step own s (.disconnected en cr)).1.presences = s.presences
+    ∧ (step own s (.disconnected en cr)).1.received = s.received
+    ∧ (step own s (.disconnected en cr)).1.inSession = false := by
+  cases cr <;> simp [step, h]
 
-FULL STATEMENT (the property as written, judged at connected moments):
+/-! ### the session-level reading -/
 
-    ∀ own ops, connectedNow ops = true →
-      (run own init ops).1.entries = specView (traceS own init ops)
-      ∧ ∀ b r, lookupKey r (resTable (run own init ops).1.presences b) = specPres (traceS own init ops) b r
+/-- the environment assumption spelled out: `resumesContinueSmSession ops` says exactly that before every
+resumed connect of the history, no established session has ended with stream management off since the latest
+connect that was not a resumption -/
+theorem resumesContinueSmSession_iff (ops : List Op) :
+    resumesContinueSmSession ops = true ↔
+      ∀ pre a post, ops = pre ++ Op.connected .resumed a :: post → (chainOf pre).smChain = true :=
+  resumesOkFrom_iff {} ops
 
-It does not hold for today's code (next two theorems).  What is proved instead is the same conclusion
-under the hypothesis that no `disconnected` signal was seen with stream management off since the current
-session began. -/
+/-- **Session-level exactness.**  With the property's own session boundaries (`traceS`: a view ends only
+where a connect that is not a resumption begins a new session; `disconnected` signals end nothing), at every
+moment a session is established the contact list is the most recent full roster received on the session
+with every later authorised push applied in order, and the presence table lists for every contact exactly
+the resources whose latest available/unavailable presence on the session was available (with that
+presence's status).  Environment assumption (needed, see `session_view_needs_assumption`):
+`resumesContinueSmSession` — a resumption continues the latest session and that session had stream
+management. -/
+theorem session_view_exact (own : String) (ops : List Op)
+    (henv : resumesContinueSmSession ops = true) (hc : connectedNow ops = true) :
+    (run own init ops).1.entries = specView (traceS own init ops)
+    ∧ ∀ b r, lookupKey r (resTable (run own init ops).1.presences b) = specPres (traceS own init ops) b r := by
+  have h := SessInv.init.run own ops henv
+  simpa using h.view (h.live hc)
 
-/-- **Session-level exactness (partial).**  Let the history be `pre`, then a connect that is not a
-resumption, then `chain` — any operations (drops with SM enabled, resumptions, failed answers, pushes,
-presences, even further fresh connects) except a `disconnected` seen while stream management is reported
-off.  Then contact list and presence table are exactly what the property prescribes with the property's
-own session boundaries (`traceS`).  Missing for the full statement: histories in which such a
-`disconnected` precedes a resumed connect, see `C12_defect_*`. -/
-theorem session_view_exact_partial (own : String) (pre chain : List Op) (sm : Sm) (auth : Bool)
-    (hsm : sm ≠ .resumed) (hchain : ∀ op ∈ chain, op.isNoSmDisc = false) :
-    (run own init (pre ++ .connected sm auth :: chain)).1.entries
-        = specView (traceS own init (pre ++ .connected sm auth :: chain))
-    ∧ ∀ b r, lookupKey r (resTable (run own init (pre ++ .connected sm auth :: chain)).1.presences b)
-        = specPres (traceS own init (pre ++ .connected sm auth :: chain)) b r := by
-  have hc : ∀ s, classifyS own s (.connected sm auth) = .clear := by
-    intro s; simp [classifyS, classify, hsm]
-  have hc' : ∀ s, classify own s (.connected sm auth) = .clear := by
-    intro s; simp [classify, hsm]
-  have htr : traceS own init (pre ++ .connected sm auth :: chain)
-      = traceS own init pre ++ Ev.clear ::
-          trace own (step own (run own init pre).1 (.connected sm auth)).1 chain := by
-    rw [traceS_append]
-    simp only [traceS, hc]
-    rw [traceS_eq_trace own _ chain hchain]
-  constructor
-  · rw [htr, specView_clear_cons, run_append, run_cons, run_entries]
-    rw [step_entries, hc']
-    rfl
-  · intro b r
-    rw [htr, specPres_clear_cons, run_append, run_cons, run_pres]
-    rw [step_pres, hc']
-    rfl
-
-/-- the realistic witness: session with SM, roster `alice`, her phone comes online, the socket is lost
-(resumable), one reconnect attempt dies after the stream restart (flags reset ⇒ `disconnected` with SM
-reported off, still resumable), the next attempt resumes the stream -/
-def defectWitness : List Op :=
+/-- the history that defeated the code before commit fd7e86c: session with SM, roster `alice`, her phone
+comes online, the socket is lost (resumable), one reconnect attempt dies after the stream restart (flags
+reset ⇒ `disconnected` with SM reported off, still resumable), the next attempt resumes the stream -/
+def resumeWitness : List Op :=
   [ .connected .new true,
     .response 1 "" true [{ jid := "alice@example.org", name := "Alice", sub := .both, groups := ["friends"] }],
     .presence "alice@example.org/phone" .available "hi",
@@ -218,24 +213,20 @@ def defectWitness : List Op :=
     .disconnected false true,
     .connected .resumed true ]
 
-/-- **Defect (contact list).**  The session-level statement fails on `defectWitness`: after the resumption the
-property prescribes the roster `[alice]`, the cache is empty (it was wiped by the `disconnected` of the failed
-attempt). -/
-theorem C12_defect_view_lost_before_resumption :
+/-- a resumed connect after a session WITHOUT stream management has ended (no server does that) -/
+def impossibleResume : List Op :=
+  [ .connected .none_ true,
+    .response 1 "" true [{ jid := "alice@example.org", name := "Alice", sub := .both, groups := [] }],
+    .disconnected false false,
+    .connected .resumed true ]
+
+/-- **The assumption is needed**: without it the conclusion of `session_view_exact` fails (the non-SM session's
+end rightly cleared the cache; a "resumption" of it would find it empty). -/
+theorem session_view_needs_assumption :
     ¬ (∀ (own : String) (ops : List Op), connectedNow ops = true →
         (run own init ops).1.entries = specView (traceS own init ops)) := by
   intro h
-  have h1 := h "me@example.org" defectWitness (by decide)
-  revert h1
-  decide
-
-/-- **Defect (presence table).**  Same history: `alice/phone`'s latest presence on the session was available,
-the table no longer lists it — and on a resumed stream the server will not send it again. -/
-theorem C12_defect_presence_lost_before_resumption :
-    ¬ (∀ (own : String) (ops : List Op) (b r : String), connectedNow ops = true →
-        lookupKey r (resTable (run own init ops).1.presences b) = specPres (traceS own init ops) b r) := by
-  intro h
-  have h1 := h "me@example.org" defectWitness "alice@example.org" "phone" (by decide)
+  have h1 := h "me@example.org" impossibleResume (by decide)
   revert h1
   decide
 
@@ -269,20 +260,24 @@ example : (run "me@example.org" init
      .rosterIq .set "me@example.org" "p2" [{ jid := "b@x", name := "", sub := .remove, groups := [] }]]).1.entries
     = [("a@x", { jid := "a@x", name := "A2", sub := .from_, groups := [] })] := by decide
 
--- the hypotheses of `kept_across_resumption` and of `session_view_exact_partial` on a non-trivial history
+-- the hypothesis of `kept_across_resumption` on a non-trivial history
 example : ∀ op ∈ [Op.disconnected true true, Op.connected .resumed true, Op.disconnected true false],
     (∃ c, op = .disconnected true c) ∨ (∃ a, op = .connected .resumed a) := by
   intro op h
   simp only [List.mem_cons, List.not_mem_nil, or_false] at h
   rcases h with h | h | h <;> subst h <;> simp
 
-example : ∀ op ∈ [Op.response 1 "" true [{ jid := "a@x", name := "A", sub := .both, groups := [] }],
-      Op.presence "a@x/r" .available "s", Op.disconnected true true, Op.connected .resumed true],
-    op.isNoSmDisc = false := by decide
-
--- the witness of the defect is a connected moment, and the code-level theorems still hold on it
-example : connectedNow defectWitness = true := by decide
-example : (run "me@example.org" init defectWitness).1.entries = [] ∧
-    specView (traceS "me@example.org" init defectWitness) ≠ [] := by decide
+-- the old witness history meets both hypotheses of `session_view_exact`, and the view survives the failed
+-- reconnect attempt: alice and her phone are still there after the resumption
+example : resumesContinueSmSession resumeWitness = true ∧ connectedNow resumeWitness = true := by decide
+example : keys (run "me@example.org" init resumeWitness).1.entries = ["alice@example.org"]
+    ∧ resources (run "me@example.org" init resumeWitness).1 "alice@example.org" = ["phone"]
+    ∧ (run "me@example.org" init resumeWitness).1.received = true := by decide
+example : specView (traceS "me@example.org" init resumeWitness) ≠ [] := by decide
+-- the excluded history violates the assumption (and only the assumption)
+example : resumesContinueSmSession impossibleResume = false ∧ connectedNow impossibleResume = true := by decide
+-- hypothesis of `disconnected_outside_session_keeps_view` on a reachable non-trivial state
+example : (run "me@example.org" init (resumeWitness.take 4)).1.inSession = false
+    ∧ (run "me@example.org" init (resumeWitness.take 4)).1.entries ≠ [] := by decide
 
 end Qx.C12
